@@ -2263,7 +2263,9 @@ def list_packages_model(repo):
         itl = Interp(repo, facts)
         itl.module_env(PROJECT)['SUFFIXES'] = ['.py', '.pyc', '.cpython-312-x86_64-linux-gnu.so', '.abi3.so', '.so']
         _source_suffixes(itl)
-        itl.sys_path = ['<P1>']
+        # (a path entry may be a regular file - a zip archive or an egg on sys.path: listing it raises NotADirectoryError, an OSError)
+        itl.sys_path = ['<P1>', '<Z>/vendor.zip']
+        itl.fs_plain_files = {'<Z>/vendor.zip'}
         # (modules loaded by file name - importlib.import_module('my-script'), a plug-in loader - sit in sys.modules under names no
         # import statement can spell)
         itl.sys_modules = {'pkg.loaded': 1, 'pkg.loaded.deep': 1, 'pkgother.x': 1, 'other': 1, 'pkg': 1,
@@ -2289,6 +2291,10 @@ def list_packages_model(repo):
                     got, exc = None, e
                 except Uninterpretable as e:
                     raise AnalysisError('list_packages is outside the interpretable subset: %s' % e)
+                out.append(('lp-total', 'list_packages(%r) skips path entries it cannot list [%s]' % (root, order), exc is None,
+                            'list_packages(%r) raises %s on a search path one entry of which is a regular file (<Z>/vendor.zip: os.listdir raises '
+                            'NotADirectoryError, an OSError that is not FileNotFoundError): the exception leaves assist on an import line, which may '
+                            'raise SyntaxError only' % (root, exc), 'list_packages(%r) raises nothing on an unlistable path entry' % root))
                 out.append(('lp', 'list_packages(%r) walks sources, sys.path and sys.modules [%s]' % (root, order), got == want,
                             'on the modelled file system list_packages(%r) must give %s (modules with a suffix of the shared table and packages with '
                             '__init__.py - for a package: in the directory of the first root that has it, which is what import binds it to -, '
